@@ -63,10 +63,13 @@ class S1Client(BaseClient):
                     continue
                 body_raises = bool(n.body) and isinstance(n.body[-1], ast.Raise)
                 else_raises = bool(n.orelse) and isinstance(n.orelse[-1], ast.Raise)
+                t_, pos = n.test, True
+                while isinstance(t_, ast.UnaryOp) and isinstance(t_.op, ast.Not):
+                    t_, pos = t_.operand, not pos        # flow.py hands the stripped test to assume()
                 if body_raises and not else_raises:
-                    self.guards[id(n.test)] = (False, names)
+                    self.guards[id(t_)] = (not pos, names)
                 elif else_raises and not body_raises:
-                    self.guards[id(n.test)] = (True, names)
+                    self.guards[id(t_)] = (pos, names)
 
     def call_may_raise(self, call):
         return is_validator_call(call)
@@ -852,10 +855,10 @@ def s13(repo, res):
     for c in probes:
         shp = shape_of_lit(c.args[1])
         ok = shp is not None and len(shp) == 2 and shp[1] == 3 and shp[0] >= 2 and shp[0] != 3
-        cmps = [x for x in ast.walk(fn) if isinstance(x, ast.Compare) and isinstance(x.left, ast.Attribute) and x.left.attr == "shape"]
+        cmps = [x for x in ast.walk(fn) if isinstance(x, ast.Compare) and len(x.ops) == 1 and any(isinstance(y, ast.Attribute) and y.attr == "shape" for y in (x.left, x.comparators[0]))]
         same = []
         for x in cmps:
-            r = x.comparators[0]
+            r = x.comparators[0] if (isinstance(x.left, ast.Attribute) and x.left.attr == "shape") else x.left
             rs = shape_of_lit(r) if not isinstance(r, ast.Attribute) else (shp if ast.unparse(r.value) == ast.unparse(c.args[1]) else None)
             if isinstance(r, ast.Tuple):
                 try: rs = tuple(ast.literal_eval(r))
